@@ -75,7 +75,14 @@ std::pair<Graph<EdgeLabel>, std::vector<std::string>> loadTextEdgeList(
         [](const std::string &s) { return EdgeLabel(); }
 ) {
     return loadTextVertexLabeledEdgeList<Graph, EdgeLabel>(
-        fileName, fromString, [](const std::string &str) { return stoi(str); }
+        fileName, fromString, [](const std::string &str) {
+            int index = stoi(str);
+            if (index < 0)
+                throw std::invalid_argument(
+                    "Negative vertex index \"" + str + "\"."
+                );
+            return (VertexIndex)index;
+        }
     );
 }
 
